@@ -155,6 +155,14 @@ impl Workload for ErrSpans {
         json!({"sources": explore_case(seed, "errspans", idx).sources.to_json()})
     }
     fn run(&self, seed: u64, idx: u64, st: &mut Stats) -> Vec<Violation> {
+        if idx % 8 == 7 {
+            // import graphs of C10's workload (cycles, missing targets; modules of different lengths with multi-byte
+            // text): the span of the load error must lie in the module it names
+            let loads = super::c10::Loads::new(true);
+            let (g, _) = loads.graph(seed, 1_000_000 + idx);
+            st.inc("import_graph_cases");
+            return check_err_spans(&g.sources(), st);
+        }
         check_err_spans(&explore_case(seed, "errspans", idx).sources, st)
     }
     fn run_json(&self, case: &Value, st: &mut Stats) -> Vec<Violation> {
